@@ -29,6 +29,10 @@ pub enum ProofError {
     #[error("Existance proof missing in operation")]
     ExistanceProofMissing,
 
+    /// Non-existance proof missing in operation
+    #[error("Non-existance proof missing in operation")]
+    NonExistanceProofMissing,
+
     /// Uneven proofs and keys lengths
     #[error("Uneven proofs ({0}) and keys ({1}) lenghts")]
     UnevenProofsAndKeysLengths(usize, usize),
@@ -94,6 +98,57 @@ impl CommitmentOp {
 pub struct ProofChain(Vec<CommitmentOp>);
 
 impl ProofChain {
+    /// Verifies that a key is absent from the lowermost of the nested merkle trees.
+    ///
+    /// The first proof must prove the non-existence of the first key in the lowermost tree.
+    /// The root of that tree is the leaf which the remaining proofs must prove up to the
+    /// expected uppermost root, exactly like in [`ProofChain::verify_membership`].
+    pub fn verify_non_membership(
+        &self,
+        root: impl AsRef<[u8]>,
+        keys: impl IntoIterator<Item = impl AsRef<[u8]>>,
+    ) -> Result<(), ProofError> {
+        let mut keys = keys.into_iter().fuse();
+
+        let key = keys.next().ok_or(ProofError::NonExistanceProofMissing)?;
+        let key = key.as_ref();
+        let proof = self.0.first().ok_or(ProofError::NonExistanceProofMissing)?;
+
+        if key != proof.key {
+            return Err(ProofError::OperationKeyMismatch(
+                proof.key.clone(),
+                key.to_vec(),
+            ));
+        }
+
+        let next_key = keys.next().ok_or(ProofError::ExistanceProofMissing)?;
+        let next_key = next_key.as_ref();
+
+        // the root of the tree the key is absent from is the leaf of the next tree
+        let tree_root = self
+            .0
+            .get(1)
+            .and_then(|proof| proof.get_existence_proof(next_key))
+            .map(|proof| proof.value.clone())
+            .ok_or(ProofError::ExistanceProofMissing)?;
+
+        if !ics23::verify_non_membership::<Sha256Provider>(
+            &proof.proof,
+            &proof.spec,
+            &tree_root,
+            key,
+        ) {
+            return Err(ProofError::NonExistanceProofMissing);
+        }
+
+        ProofChain::verify_membership_of(
+            &self.0[1..],
+            root,
+            std::iter::once(next_key.to_vec()).chain(keys.map(|key| key.as_ref().to_vec())),
+            &tree_root,
+        )
+    }
+
     /// Verifies that a leaf value exists in nested merkle trees.
     ///
     /// Root is an expected root hash of the uppermost merkle tree.
@@ -127,6 +182,15 @@ impl ProofChain {
         keys: impl IntoIterator<Item = impl AsRef<[u8]>>,
         leaf: impl AsRef<[u8]>,
     ) -> Result<(), ProofError> {
+        ProofChain::verify_membership_of(&self.0, root, keys, leaf)
+    }
+
+    fn verify_membership_of(
+        ops: &[CommitmentOp],
+        root: impl AsRef<[u8]>,
+        keys: impl IntoIterator<Item = impl AsRef<[u8]>>,
+        leaf: impl AsRef<[u8]>,
+    ) -> Result<(), ProofError> {
         let root = root.as_ref();
         let mut current_leaf = leaf.as_ref();
         let mut current_idx = 0;
@@ -136,8 +200,7 @@ impl ProofChain {
 
         while let Some(key) = keys.next() {
             let key = key.as_ref();
-            let proof = self
-                .0
+            let proof = ops
                 .get(current_idx)
                 .ok_or(ProofError::ExistanceProofMissing)?;
 
@@ -155,7 +218,7 @@ impl ProofChain {
             // current proof must prove current leaf to the root of the current tree,
             // which is at the same time the leaf for the next proof or the uppermost root
             // in case we are in proving the last tree
-            let current_root = if let Some(proof) = self.0.get(current_idx + 1) {
+            let current_root = if let Some(proof) = ops.get(current_idx + 1) {
                 proof
                     .get_existence_proof(key)
                     .map(|proof| proof.value.as_slice())
@@ -186,7 +249,7 @@ impl ProofChain {
         }
 
         // check that we used all proofs during verification
-        if self.0.get(current_idx).is_some() {
+        if ops.get(current_idx).is_some() {
             return Err(ProofError::UnevenProofsAndKeysLengths(
                 current_idx,
                 current_idx - 1,
